@@ -75,12 +75,15 @@ func C05(p *load.Prog, r *oblig.Run) {
 		return
 	}
 	seenA, seenB := map[string]bool{}, map[string]bool{}
-	for _, path := range paths {
-		last := path[len(path)-1]
-		ret, ok := last.Instrs[len(last.Instrs)-1].(*ssa.Return)
-		if !ok {
-			continue
-		}
+	// collectFacts: what the branch tests on a path establish about the date's components
+	type pathInfo struct {
+		facts       map[string]string
+		pred        map[*ssa.BasicBlock]*ssa.BasicBlock
+		infeasible  bool
+		unknown     string
+		zeroByValue bool
+	}
+	collectFacts := func(path []*ssa.BasicBlock) pathInfo {
 		facts := map[string]string{} // Day/Month/Year -> "0" | "!0"; IsEndOfRange -> "t"|"f"; zerotime -> "t"|"f"
 		pred := map[*ssa.BasicBlock]*ssa.BasicBlock{}
 		for i := 1; i < len(path); i++ {
@@ -176,6 +179,57 @@ func C05(p *load.Prog, r *oblig.Run) {
 				unknown = fmt.Sprintf("a branch on %T", cond)
 			}
 		}
+		return pathInfo{facts, pred, infeasible, unknown, zeroByValue}
+	}
+	// describeText: the calendar text as a constant or a constant format over named components
+	describeText := func(arg ssa.Value) string {
+		text := "?"
+		switch x := arg.(type) {
+		case *ssa.Const:
+			if x.Value != nil && x.Value.Kind() == constant.String {
+				text = fmt.Sprintf("%q", constant.StringVal(x.Value))
+			}
+		case *ssa.Call:
+			if isPkgFunc(x.Call.StaticCallee(), "fmt", "Sprintf") {
+				f, _ := su.ConstString(x.Call.Args[0])
+				var fs []string
+				if sl, ok := x.Call.Args[1].(*ssa.Slice); ok {
+					if al, ok := sl.X.(*ssa.Alloc); ok {
+						elems := map[int64]string{}
+						for _, ref := range *al.Referrers() {
+							ia, ok := ref.(*ssa.IndexAddr)
+							if !ok {
+								continue
+							}
+							ix, _ := su.ConstInt(ia.Index)
+							for _, r2 := range *ia.Referrers() {
+								if st, ok := r2.(*ssa.Store); ok {
+									if _, name, ok := fieldOfParamName(su.Strip(st.Val)); ok {
+										elems[ix] = name
+									} else {
+										elems[ix] = "?"
+									}
+								}
+							}
+						}
+						for i := int64(0); i < int64(len(elems)); i++ {
+							fs = append(fs, elems[i])
+						}
+					}
+				}
+				text = fmt.Sprintf("%q %% (%s)", f, strings.Join(fs, ","))
+			}
+		}
+		return text
+	}
+	for _, path := range paths {
+		last := path[len(path)-1]
+		ret, ok := last.Instrs[len(last.Instrs)-1].(*ssa.Return)
+		if !ok {
+			continue
+		}
+		pi := collectFacts(path)
+		facts, pred, infeasible, unknown, zeroByValue := pi.facts, pi.pred, pi.infeasible, pi.unknown, pi.zeroByValue
 		if infeasible {
 			continue
 		}
@@ -245,134 +299,167 @@ func C05(p *load.Prog, r *oblig.Run) {
 		if parsed == nil {
 			unknown = "the returned time is not derived from one parse call through AddDate/Add"
 		}
-		// the text handed to the parser
-		text := "?"
+		// the text handed to the parser: built in Date.Time itself, or by a helper that is handed the date
+		type combo struct {
+			facts map[string]string
+			text  string
+		}
+		var combos []combo
 		if parsed != nil {
 			arg := canon(parsed.Call.Args[len(parsed.Call.Args)-1])
-			switch x := arg.(type) {
-			case *ssa.Const:
-				if x.Value != nil && x.Value.Kind() == constant.String {
-					text = fmt.Sprintf("%q", constant.StringVal(x.Value))
+			helper := (*ssa.Function)(nil)
+			if hc, isCall := arg.(*ssa.Call); isCall {
+				if h := hc.Call.StaticCallee(); h != nil && p.IsRepoFunc(h) && len(h.Blocks) > 0 && len(h.Params) == 1 && len(hc.Call.Args) == 1 {
+					helper = h
 				}
-			case *ssa.Call:
-				if isPkgFunc(x.Call.StaticCallee(), "fmt", "Sprintf") {
-					f, _ := su.ConstString(x.Call.Args[0])
-					var fs []string
-					if sl, ok := x.Call.Args[1].(*ssa.Slice); ok {
-						if al, ok := sl.X.(*ssa.Alloc); ok {
-							elems := map[int64]string{}
-							for _, ref := range *al.Referrers() {
-								ia, ok := ref.(*ssa.IndexAddr)
-								if !ok {
-									continue
-								}
-								ix, _ := su.ConstInt(ia.Index)
-								for _, r2 := range *ia.Referrers() {
-									if st, ok := r2.(*ssa.Store); ok {
-										if _, name, ok := fieldOfParamName(su.Strip(st.Val)); ok {
-											elems[ix] = name
-										} else {
-											elems[ix] = "?"
-										}
-									}
-								}
-							}
-							for i := int64(0); i < int64(len(elems)); i++ {
-								fs = append(fs, elems[i])
+			}
+			if helper == nil {
+				combos = append(combos, combo{nil, describeText(arg)})
+			} else {
+				hp, hcapped := simplePaths(helper.Blocks[0], map[*ssa.BasicBlock]bool{}, 2000)
+				if hcapped {
+					unknown = "more than 2000 paths through " + load.FuncName(helper)
+				}
+				for _, hpath := range hp {
+					hl := hpath[len(hpath)-1]
+					hret, ok := hl.Instrs[len(hl.Instrs)-1].(*ssa.Return)
+					if !ok || len(hret.Results) != 1 {
+						continue
+					}
+					hi := collectFacts(hpath)
+					if hi.infeasible {
+						continue
+					}
+					if hi.unknown != "" {
+						unknown = hi.unknown
+					}
+					rv := hret.Results[0]
+					for k := 0; k < 10; k++ {
+						ph, isPhi := rv.(*ssa.Phi)
+						if !isPhi {
+							break
+						}
+						moved := false
+						for j, q := range ph.Block().Preds {
+							if q == hi.pred[ph.Block()] {
+								rv, moved = ph.Edges[j], true
 							}
 						}
+						if !moved {
+							break
+						}
 					}
-					text = fmt.Sprintf("%q %% (%s)", f, strings.Join(fs, ","))
+					combos = append(combos, combo{hi.facts, describeText(rv)})
 				}
 			}
+		} else {
+			combos = append(combos, combo{nil, "?"})
 		}
-		get := func(k string) string {
-			if v, ok := facts[k]; ok {
-				return v
+		baseFacts := facts
+		for _, cb := range combos {
+			facts := map[string]string{}
+			for k, v := range baseFacts {
+				facts[k] = v
 			}
-			return "?"
-		}
-		D, M, Y := get("Day"), get("Month"), get("Year")
-		// R05.a: expected text - the documented cascade evaluated in three-valued logic on the path's facts
-		tri := func(vs ...string) string { // conjunction of "component is known"
-			res := "t"
-			for _, v := range vs {
-				switch v {
-				case "0":
-					return "f"
-				case "?":
-					res = "?"
+			conflict := false
+			for k, v := range cb.facts {
+				if old, ok := facts[k]; ok && old != v {
+					conflict = true
+				}
+				facts[k] = v
+			}
+			if conflict {
+				continue
+			}
+			text := cb.text
+			get := func(k string) string {
+				if v, ok := facts[k]; ok {
+					return v
+				}
+				return "?"
+			}
+			D, M, Y := get("Day"), get("Month"), get("Year")
+			// R05.a: expected text - the documented cascade evaluated in three-valued logic on the path's facts
+			tri := func(vs ...string) string { // conjunction of "component is known"
+				res := "t"
+				for _, v := range vs {
+					switch v {
+					case "0":
+						return "f"
+					case "?":
+						res = "?"
+					}
+				}
+				return res
+			}
+			wantText, det := "", true
+			switch {
+			case tri(D, M, Y) == "t":
+				wantText = `"%d %d %04d" % (Day,Month,Year)`
+			case tri(D, M, Y) == "?":
+				det = false
+			case tri(M, Y) == "t":
+				wantText = `"1 %d %04d" % (Month,Year)`
+			case tri(M, Y) == "?":
+				det = false
+			case tri(Y) == "t":
+				wantText = `"1 1 %04d" % (Year)`
+			case tri(Y) == "?":
+				det = false
+			default:
+				wantText = `""`
+			}
+			ka := fmt.Sprintf("Day%s Month%s Year%s", D, M, Y)
+			if !seenA[ka+"|"+text] {
+				seenA[ka+"|"+text] = true
+				o := r.Add("R05.a", "calendar text for "+ka, p.Pos(tm.Pos()), "text parsed by Date.Time when "+ka)
+				switch {
+				case unknown != "":
+					o.Unknown(unknown)
+				case !det:
+					o.Fail("a path through Date.Time chooses the calendar text " + text + " without having tested the components that decide it (facts on the path: " + ka + ")")
+				case text != wantText:
+					o.Fail(fmt.Sprintf("with %s Date.Time parses %s; the first day of the period is %s", ka, text, wantText))
+				default:
+					o.OK(text)
 				}
 			}
-			return res
-		}
-		wantText, det := "", true
-		switch {
-		case tri(D, M, Y) == "t":
-			wantText = `"%d %d %04d" % (Day,Month,Year)`
-		case tri(D, M, Y) == "?":
-			det = false
-		case tri(M, Y) == "t":
-			wantText = `"1 %d %04d" % (Month,Year)`
-		case tri(M, Y) == "?":
-			det = false
-		case tri(Y) == "t":
-			wantText = `"1 1 %04d" % (Year)`
-		case tri(Y) == "?":
-			det = false
-		default:
-			wantText = `""`
-		}
-		ka := fmt.Sprintf("Day%s Month%s Year%s", D, M, Y)
-		if !seenA[ka+"|"+text] {
-			seenA[ka+"|"+text] = true
-			o := r.Add("R05.a", "calendar text for "+ka, p.Pos(tm.Pos()), "text parsed by Date.Time when "+ka)
+			// R05.b: expected adjustment
+			E, Z := get("IsEndOfRange"), get("zerotime")
+			want := "?"
 			switch {
-			case unknown != "":
-				o.Unknown(unknown)
-			case !det:
-				o.Fail("a path through Date.Time chooses the calendar text " + text + " without having tested the components that decide it (facts on the path: " + ka + ")")
-			case text != wantText:
-				o.Fail(fmt.Sprintf("with %s Date.Time parses %s; the first day of the period is %s", ka, text, wantText))
+			case E == "f" || Z == "t":
+				want = ""
+			case E == "?" || Z == "?":
+			case D == "!0":
+				want = "AddDate(0,0,1) Add(-1ns)"
+			case D == "?":
+			case M == "!0":
+				want = "AddDate(0,1,0) Add(-1ns)"
+			case M == "?":
+			case Y == "!0":
+				want = "AddDate(1,0,0) Add(-1ns)"
+			case Y == "?":
 			default:
-				o.OK(text)
+				want = "Add(-1ns)" // a parsed, non-zero time without any component cannot occur; the code only takes the nanosecond off
 			}
-		}
-		// R05.b: expected adjustment
-		E, Z := get("IsEndOfRange"), get("zerotime")
-		want := "?"
-		switch {
-		case E == "f" || Z == "t":
-			want = ""
-		case E == "?" || Z == "?":
-		case D == "!0":
-			want = "AddDate(0,0,1) Add(-1ns)"
-		case D == "?":
-		case M == "!0":
-			want = "AddDate(0,1,0) Add(-1ns)"
-		case M == "?":
-		case Y == "!0":
-			want = "AddDate(1,0,0) Add(-1ns)"
-		case Y == "?":
-		default:
-			want = "Add(-1ns)" // a parsed, non-zero time without any component cannot occur; the code only takes the nanosecond off
-		}
-		got := strings.Join(ops, " ")
-		kb := fmt.Sprintf("IsEndOfRange=%s zero-time=%s Day%s Month%s Year%s", E, Z, D, M, Y)
-		if !seenB[kb+"|"+got] {
-			seenB[kb+"|"+got] = true
-			o := r.Add("R05.b", "adjustment for "+kb, p.Pos(tm.Pos()), "end-of-range adjustment when "+kb)
-			switch {
-			case unknown != "":
-				o.Unknown(unknown)
-			case zeroByValue && E == "t" && Z == "t" && Y != "0":
-				o.Fail("an end-of-range bound is left unadjusted whenever the parsed time IsZero(): 1 Jan 0001 00:00 UTC - the start of the valid dates '1 Jan 0001', 'Jan 0001' and '0001' - is Go's zero time, so the end of those three periods equals their start (the parser's own success flag must decide, not the value)")
-			case want == "?":
-				o.Fail("a path through Date.Time applies [" + got + "] without having tested what decides the adjustment (facts on the path: " + kb + ")")
-			case got != want:
-				o.Fail(fmt.Sprintf("when %s the bound is adjusted by [%s]; the last nanosecond of the period needs [%s]", kb, got, want))
-			default:
-				o.OK("[" + got + "]")
+			got := strings.Join(ops, " ")
+			kb := fmt.Sprintf("IsEndOfRange=%s zero-time=%s Day%s Month%s Year%s", E, Z, D, M, Y)
+			if !seenB[kb+"|"+got] {
+				seenB[kb+"|"+got] = true
+				o := r.Add("R05.b", "adjustment for "+kb, p.Pos(tm.Pos()), "end-of-range adjustment when "+kb)
+				switch {
+				case unknown != "":
+					o.Unknown(unknown)
+				case zeroByValue && E == "t" && Z == "t" && Y != "0":
+					o.Fail("an end-of-range bound is left unadjusted whenever the parsed time IsZero(): 1 Jan 0001 00:00 UTC - the start of the valid dates '1 Jan 0001', 'Jan 0001' and '0001' - is Go's zero time, so the end of those three periods equals their start (the parser's own success flag must decide, not the value)")
+				case want == "?":
+					o.Fail("a path through Date.Time applies [" + got + "] without having tested what decides the adjustment (facts on the path: " + kb + ")")
+				case got != want:
+					o.Fail(fmt.Sprintf("when %s the bound is adjusted by [%s]; the last nanosecond of the period needs [%s]", kb, got, want))
+				default:
+					o.OK("[" + got + "]")
+				}
 			}
 		}
 	}
@@ -441,10 +528,15 @@ func describeDateExpr(v ssa.Value, d int) string {
 }
 
 func c05Order(p *load.Prog, r *oblig.Run) {
-	// a function whose single result is  Years(A) op Years(B)
-	cmpShape := func(fn *ssa.Function) string {
+	// canonical relation computed by a function whose single result is  Years(A) op Years(B)  or the answer of another
+	// such function: always written  Years(X) < Years(Y)  (a > b is b < a; a call is replaced by what the callee computes)
+	var cmpShape func(fn *ssa.Function, depth int) string
+	cmpShape = func(fn *ssa.Function, depth int) string {
 		if fn == nil {
 			return "missing"
+		}
+		if depth > 3 {
+			return "?"
 		}
 		var shapes []string
 		for _, b := range fn.Blocks {
@@ -457,12 +549,23 @@ func c05Order(p *load.Prog, r *oblig.Run) {
 				a, ok1 := yearsOf(x.X)
 				c, ok2 := yearsOf(x.Y)
 				if ok1 && ok2 {
-					shapes = append(shapes, fmt.Sprintf("Years(%s) %s Years(%s)", a, x.Op, c))
+					switch x.Op {
+					case token.LSS:
+						shapes = append(shapes, fmt.Sprintf("Years(%s) < Years(%s)", a, c))
+					case token.GTR:
+						shapes = append(shapes, fmt.Sprintf("Years(%s) < Years(%s)", c, a))
+					default:
+						shapes = append(shapes, fmt.Sprintf("Years(%s) %s Years(%s)", a, x.Op, c))
+					}
 					continue
 				}
 			case *ssa.Call:
-				if cal := x.Call.StaticCallee(); cal != nil && len(x.Call.Args) == 2 {
-					shapes = append(shapes, fmt.Sprintf("%s(%s, %s)", cal.Name(), describeDateExpr(x.Call.Args[0], 0), describeDateExpr(x.Call.Args[1], 0)))
+				if cal := x.Call.StaticCallee(); cal != nil && len(x.Call.Args) == 2 && p.IsRepoFunc(cal) {
+					inner := cmpShape(cal, depth+1)
+					a0, a1 := describeDateExpr(x.Call.Args[0], 0), describeDateExpr(x.Call.Args[1], 0)
+					inner = strings.NewReplacer("p0", "\x00", "p1", "\x01").Replace(inner)
+					inner = strings.NewReplacer("\x00", a0, "\x01", a1).Replace(inner)
+					shapes = append(shapes, inner)
 					continue
 				}
 			}
@@ -475,13 +578,13 @@ func c05Order(p *load.Prog, r *oblig.Run) {
 		if fn != nil {
 			pos = p.Pos(fn.Pos())
 		}
-		got := cmpShape(fn)
+		got := cmpShape(fn, 0)
 		r.Check("R05.c", key, pos, "comparison performed by "+key, got == want, got, fmt.Sprintf("%s computes %s instead of %s: %s", key, got, want, bad))
 	}
 	check("Date.IsBefore", p.Method(load.PkgRoot, "Date", "IsBefore"), "Years(p0) < Years(p1)", "before/after no longer agree with calendar order")
-	check("Date.IsAfter", p.Method(load.PkgRoot, "Date", "IsAfter"), "Years(p0) > Years(p1)", "before/after no longer agree with calendar order")
-	check("DateRange.IsBefore", p.Method(load.PkgRoot, "DateRange", "IsBefore"), "IsBefore(p0.start, p1.start)", "ranges are ordered by something other than their two starts")
-	check("DateRange.IsAfter", p.Method(load.PkgRoot, "DateRange", "IsAfter"), "IsAfter(p0.end, p1.end)", "ranges are ordered by something other than their two ends")
+	check("Date.IsAfter", p.Method(load.PkgRoot, "Date", "IsAfter"), "Years(p1) < Years(p0)", "before/after no longer agree with calendar order")
+	check("DateRange.IsBefore", p.Method(load.PkgRoot, "DateRange", "IsBefore"), "Years(p0.start) < Years(p1.start)", "ranges are ordered by something other than their two starts")
+	check("DateRange.IsAfter", p.Method(load.PkgRoot, "DateRange", "IsAfter"), "Years(p1.end) < Years(p0.end)", "ranges are ordered by something other than their two ends")
 	// Minimum / Maximum: the replacing comparison inside the loop
 	for _, mm := range []struct {
 		name, acc string
